@@ -25,6 +25,9 @@ Next ==
                /\ Bump(6)
                /\ Check(e.inc16 = e.one16, "C19", "Incremental16", l, [len |-> e.len])
                /\ Check(e.inc32 = e.one32, "C19", "Incremental32", l, [len |-> e.len])
+          [] e.ev = "user" ->    \* a caller of the incremental API (model layer: the routines themselves are judged by the rows)
+               /\ Bump(9)
+               /\ Expect(e.first /\ e.again /\ e.edited /\ e.restored, "caller:" \o e.who, l, e)
           [] e.ev = "two" ->
                /\ BumpBy(7, 256)
                /\ Check(\A b \in 0..255 : e.c16[b + 1] = Crc16(<<e.a, b>>), "C19", "OneShot16", l, [len |-> 2, a |-> e.a])
